@@ -646,6 +646,16 @@ bool StringDictionaryHTFC::locateBucket(uchar *str, uint strLen,
   return false;
 }
 
+// Copies len coded bytes starting at a bucket header without reading past the
+// end of the coded text (the tail of the copy is zeroed)
+static inline void copyCodedHeader(uchar *dst, const uchar *text, size_t total,
+                                   size_t from, uint len) {
+  size_t avail = (total > from) ? (total - from) : 0;
+  size_t cp = (len < avail) ? len : avail;
+  memcpy(dst, text + from, cp);
+  memset(dst + cp, 0, len - cp);
+}
+
 void StringDictionaryHTFC::locateBoundaryBuckets(uchar *str, uint strLen,
                                                  uint offset, size_t *left,
                                                  size_t *right) {
@@ -659,7 +669,8 @@ void StringDictionaryHTFC::locateBoundaryBuckets(uchar *str, uint strLen,
   while (*left <= *right) {
     center = (*left + *right) / 2;
 
-    memcpy(header, getHeader(center), strLen);
+    copyCodedHeader(header, textStrings, bytesStrings,
+                     blStrings->getField(center), strLen);
     if (offset != 0)
       header[strLen - 1] = header[strLen - 1] & cmask;
     cmp = memcmp(header, str, strLen);
@@ -693,7 +704,8 @@ void StringDictionaryHTFC::locateBoundaryBuckets(uchar *str, uint strLen,
     while (ll <= lr) {
       lc = (ll + lr) / 2;
 
-      memcpy(header, getHeader(lc), strLen);
+      copyCodedHeader(header, textStrings, bytesStrings,
+                     blStrings->getField(lc), strLen);
       if (offset != 0)
         header[strLen - 1] = header[strLen - 1] & cmask;
       cmp = memcmp(header, str, strLen);
@@ -717,7 +729,8 @@ void StringDictionaryHTFC::locateBoundaryBuckets(uchar *str, uint strLen,
     while (rl < (rr - 1)) {
       rc = (rl + rr) / 2;
 
-      memcpy(header, getHeader(rc), strLen);
+      copyCodedHeader(header, textStrings, bytesStrings,
+                     blStrings->getField(rc), strLen);
       if (offset != 0)
         header[strLen - 1] = header[strLen - 1] & cmask;
       cmp = memcmp(header, str, strLen);
